@@ -110,6 +110,14 @@ def make_case(rng, tier):
             S = np.zeros((m, n))
             S[:k, :k] = np.diag(s)
             x[0, p] = U @ S @ V.T
+        if P >= 2 and rng.random() < 0.3:
+            # ONE direction whose whole path has rank one (a singular value vanishing identically; the singular values
+            # stay distinct); the other directions have full rank
+            p = rng.randrange(P)
+            a, b = rand_coeffs(rng, (m, 1), -1, 1) + 0.5, rand_coeffs(rng, (1, n), -1, 1) + 0.5
+            for d in range(D):
+                x[d, p] = (1.0 if d == 0 else 0.5 ** d) * (a @ b)
+            c['rankdef_dir'] = p
         c['x'] = x
     if kind in ('qr', 'qr_full', 'cholesky', 'eigh', 'eigh_rep') and rng.random() < 0.35:
         c['out_seed'] = rng.randrange(1 << 30)      # caller-supplied result buffers holding stale non-zero data
@@ -272,7 +280,8 @@ def check(c):
                 return 'svd-USVt: U diag(s) V^T != A modulo t^D (max diff %s)' % maxdiff(tmul(u, tmul(S, tT(v))), a)
             if not close(tmul(tT(u), u), const(np.eye(u.shape[2]), D), 1e-7) or not close(tmul(tT(v), v), const(np.eye(v.shape[2]), D), 1e-7):
                 return 'svd-orth: U or V is not orthogonal modulo t^D'
-            if np.any(sv[0] < 0) or np.any(np.diff(sv[0]) > 1e-12):
+            smax = max(float(np.max(np.abs(sv[0]))), 1e-300)
+            if np.any(sv[0] < -1e-12 * smax) or np.any(np.diff(sv[0]) > 1e-12 * smax):      # a vanishing singular value is 0 up to rounding
                 return 'svd-order: s_0 is not non-negative and descending'
     return None
 
